@@ -603,6 +603,7 @@ ErrorCode Library::write_oas(const char* filename, double circle_tolerance,
         cell_name_map.set(cell->name, i);
     }
 
+    Array<Polygon*> temporary_polygons = {};
     cell_p = cell_array.items;
     for (uint64_t i = 0; i < c_size; i++) {
         Cell* cell = *cell_p++;
@@ -641,9 +642,10 @@ ErrorCode Library::write_oas(const char* filename, double circle_tolerance,
                     Polygon* poly = *poly_p++;
                     err = poly->to_oas(out, state);
                     if (err != ErrorCode::NoError) error_code = err;
-                    poly->clear();
-                    free_allocation(poly);
                 }
+                // String property values are written by reference at the end of the file: keep
+                // the polygons that own them until then.
+                temporary_polygons.extend(array);
                 array.clear();
             }
         }
@@ -663,9 +665,10 @@ ErrorCode Library::write_oas(const char* filename, double circle_tolerance,
                     Polygon* poly = *poly_p++;
                     err = poly->to_oas(out, state);
                     if (err != ErrorCode::NoError) error_code = err;
-                    poly->clear();
-                    free_allocation(poly);
                 }
+                // String property values are written by reference at the end of the file: keep
+                // the polygons that own them until then.
+                temporary_polygons.extend(array);
                 array.clear();
             }
         }
@@ -909,6 +912,11 @@ ErrorCode Library::write_oas(const char* filename, double circle_tolerance,
     text_string_map.clear();
     state.property_name_map.clear();
     state.property_value_array.clear();
+    for (uint64_t i = 0; i < temporary_polygons.count; i++) {
+        temporary_polygons[i]->clear();
+        free_allocation(temporary_polygons[i]);
+    }
+    temporary_polygons.clear();
     return error_code;
 }
 
